@@ -52,11 +52,11 @@ ENGINE = COMMON + ["vshim.c", "vpki.c", "veng.c"]
 reg("C01",
     title="messaging transports deliver exactly the accepted messages",
     technique="recorded send/receive histories with unique message contents checked against the sender's ledger (exactly-once, order, bytes) under shim-injected short reads/writes and EAGAIN; ASan+UBSan",
-    level_text="Real connections on ux, uxf, tcp, tls and utls (UX leg, TLS leg, fallback) in non-blocking, blocking and mixed mode are driven with random interleavings of send/receive/finish/await while a link-time shim below XCM and below OpenSSL fragments and refuses reads and writes; every message has unique content and an offline oracle compares the receiver's history with the sender's ledger of accepted sends (prefix always, equality after a graceful or quiescent end). About 1 % of the receives go into a reserved 4 GiB arena with capacities around 2^31 and 2^32; the last send before a flush+close meets 2-4 forced refusals below; after a clean flush with nothing unread at the sender everything accepted is owed even if the receiver sees the end as an error.",
+    level_text="Real connections on ux, uxf, tcp, tls and utls (UX leg, TLS leg, fallback) in non-blocking, blocking and mixed mode are driven with random interleavings of send/receive/finish/await while a link-time shim below XCM and below OpenSSL fragments and refuses reads and writes; every message has unique content and an offline oracle compares the receiver's history with the sender's ledger of accepted sends (prefix always, equality after a graceful or quiescent end). About 1 % of the receives go into a reserved 4 GiB arena with capacities around 2^31 and 2^32; the last send before a flush+close meets 2-4 forced refusals below; after a clean flush with nothing unread at the sender everything accepted is owed even if the receiver sees the end as an error. In 40 % of the blocking-sender cases a blocking poll of the sender is interrupted (EINTR) or a real signal arrives: a send reported as failed must not show up at the receiver.",
     level_note="Held on the executions produced; kernel scheduling is not controlled. Floors require header splits, frame splits and mid-frame refusals to have been observed.",
     harness=ENGINE + ["vctl.c", "traffic.c"], exe="h_traffic",
     stages=[dict(variant="asan", cases={"quick": 720, "thorough": 115200}, timeout={"quick": 900, "thorough": 3400})],
-    floors={"quick": {"header_splits": 200, "frame_splits": 500, "refused_mid_frame": 100, "complete_directions": 300,
+    floors={"quick": {"header_splits": 200, "frame_splits": 500, "refused_mid_frame": 100, "eintr_injected": 10, "complete_directions": 300,
                       "cases_with_truncating_receive": 50, "distinct_nontrivial": 60},
             "thorough": {"header_splits": 4000, "frame_splits": 10000, "refused_mid_frame": 2000, "complete_directions": 6000, "distinct_nontrivial": 200}},
     rule="one evaluation = one connection history (transport x mode x direction x end mode x injection plan x size/capacity class); "
@@ -126,12 +126,12 @@ reg("C04",
 reg("C16",
     title="readiness is sound: one stable descriptor that is quiet when idle",
     technique="readiness probes at engine-confirmed quiescent points of reactor-driven histories: poll(xcm_fd, POLLIN|POLLOUT|POLLPRI, 0) sampled for each awaited condition, descriptor identity tracked through the shim's ledger; ASan+UBSan",
-    level_text="After a reactor-driven history (all transports, partial I/O plans) has delivered everything and xcm_finish succeeded on both ends, each endpoint is probed: condition 0 and RECEIVABLE-after-EAGAIN must stay unreadable over several samples, SENDABLE and R|S must be readable on the immediately following poll, data waiting in the kernel buffer or already decrypted inside the TLS layer must make RECEIVABLE readable at once, the server socket must be quiet with an empty queue; every poll must report nothing but POLLIN; xcm_fd must return the creation-time number and the shim must still show it as the epoll instance XCM created. 30 % of the cases run with the control interface on: at the quiescent point two control clients per socket attach, one or two more queue, all leave in a random order; once the owner has served them every socket must be quiet again.",
+    level_text="After a reactor-driven history (all transports, partial I/O plans) has delivered everything and xcm_finish succeeded on both ends, each endpoint is probed: condition 0 and RECEIVABLE-after-EAGAIN must stay unreadable over several samples, SENDABLE and R|S must be readable on the immediately following poll, data waiting in the kernel buffer or already decrypted inside the TLS layer must make RECEIVABLE readable at once, the server socket must be quiet with an empty queue; every poll must report nothing but POLLIN; xcm_fd must return the creation-time number and the shim must still show it as the epoll instance XCM created. 30 % of the cases run with the control interface on: at the quiescent point two control clients per socket attach, one or two more queue, all leave in a random order; some of the attached clients also speak (requests whose answers stay unread, requests of a type the library does not know, runts); once the owner has served them every socket must be quiet again. In 15 % of the cases one end is then write-blocked by real back-pressure and input from the peer must still make the descriptor readable (the converse clause).",
     level_note="One spurious wake-up that a following EAGAIN receive silences is tolerated (TLS: ssl_condition==0 after a write, TLS 1.3 tickets), persistence is flagged.",
     harness=EVLOOP, exe="h_evloop",
     stages=[dict(variant="asan", cases={"quick": 550, "thorough": 44000}, timeout={"quick": 900, "thorough": 3400})],
     floors={"quick": {"quiescent_pairs_probed": 250, "probe_cond0": 500, "probe_receivable_idle": 500, "probe_sendable_met": 900,
-                      "probe_receivable_met_kernel": 500, "probe_receivable_met_inside_tls": 100, "probe_server_idle": 250, "fd_identity_checks": 1000, "distinct_nontrivial": 80},
+                      "probe_receivable_met_kernel": 500, "probe_receivable_met_inside_tls": 100, "probe_server_idle": 250, "fd_identity_checks": 1000, "control_client_requests:unknown-type": 40, "backpressure_probes_completed": 12, "distinct_nontrivial": 80},
             "thorough": {"quiescent_pairs_probed": 5000, "probe_receivable_met_inside_tls": 2000, "distinct_nontrivial": 200}},
     rule="one evaluation = one reactor-driven history ending in a quiescent pair which is then probed (both connection ends and the server socket); "
          "non-trivial = the history completed with at least 3 wake-ups; distinct = distinct parameter signatures",
@@ -215,8 +215,8 @@ reg("C08",
 reg("C13",
     title="name resolution and multi-address connect follow the selected algorithm",
     technique="stub resolver substituted for c-ares at link time (answer list, delivery time, failure, silence chosen per case); loopback topology of accepting XCM servers, refusing addresses and listeners with a full accept queue (no answer); the shim's connect() log (order, time) and the API outcome checked against an oracle computed from list x assignment x algorithm; ASan+UBSan with stack-use-after-return detection",
-    level_text="Lists of 1..40 IPv4/IPv6 loopback addresses (v4-mapped and ::1 for IPv6) in any order, each accepting, refusing or not answering, delivered by the stub resolver synchronously, after n process calls, after t ms, never, or as a failure status; algorithms single, sequential, happy_eyeballs; with and without xcm.local_addr; small tcp.connect_timeout and dns.timeout; tcp, tls, utls, btcp, btls; the outcome observed first through finish, send or receive. Oracle: connect() is called only on addresses among the first 32 (single: the first), in list order (per family for happy eyeballs, IPv4 not before 200 ms when IPv6 candidates exist), stopping at the first that accepts; the connection comes up iff a usable address accepts, to that address (xcm_remote_addr), from the configured source; otherwise the errno of the last failed attempt (ECONNREFUSED/ETIMEDOUT), ENOENT for resolver failure or silence beyond dns.timeout, sticky, within time bounds (slack 1 s + 50 %); xcm_server on an unresolvable name fails with ENOENT. A quarter of the cases whose (time-delivered) answer arrives well inside dns.timeout take their first look at the socket only after dns.timeout.",
-    level_note="c-ares' own ordering and retry logic are outside the judged system (the stub answers instead). Time bounds carry a slack of 1 s + 50 %.",
+    level_text="Lists of 1..40 IPv4/IPv6 loopback addresses (v4-mapped and ::1 for IPv6) in any order, each accepting, refusing or not answering, delivered by the stub resolver synchronously, after n process calls, after t ms, never, or as a failure status; algorithms single, sequential, happy_eyeballs; with and without xcm.local_addr; small tcp.connect_timeout and dns.timeout; tcp, tls, utls, btcp, btls; the outcome observed first through finish, send or receive. Oracle: connect() is called only on addresses among the first 32 (single: the first), in list order (per family for happy eyeballs, IPv4 not before 200 ms when IPv6 candidates exist), stopping at the first that accepts; the connection comes up iff a usable address accepts, to that address (xcm_remote_addr), from the configured source; otherwise the errno of the last failed attempt (ECONNREFUSED/ETIMEDOUT), ENOENT for resolver failure or silence beyond dns.timeout, sticky, within time bounds (slack 1 s + 50 %); xcm_server on an unresolvable name fails with ENOENT. A quarter of the cases whose (time-delivered) answer arrives well inside dns.timeout take their first look at the socket only after dns.timeout. Some short lists end in an address to which connect() fails synchronously (ENETUNREACH). Addresses meant to refuse are held by a bound, never listening socket for the length of the case.",
+    level_note="c-ares' own ordering and retry logic are outside the judged system (the stub answers instead). Time bounds carry a slack of 1 s + 50 % and are judged on the time the driving loop was turning; a case in which one turn took more than 60 ms (the process was not scheduled for half the shortest timer in play) is counted in cases_not_judged_scheduling_stall and not judged.",
     harness=STATES + ["c13.c"],
     stages=[dict(variant="asan", cases={"quick": 1600, "thorough": 30000}, timeout={"quick": 900, "thorough": 3400})],
     floors={"quick": {"connect_scenarios": 1400, "multi_attempt_or_resolver_fault_cases": 600, "connections_established": 500, "connect_failures_verified": 200, "resolver_fault_cases_ok": 100,
@@ -243,11 +243,11 @@ reg("C11",
 reg("C09",
     title="TLS never fails open",
     technique="differential testing of real handshakes against a policy evaluator computed from generated-PKI metadata (trust root, validity, revocation, EKU vs TLS role, names): per-side outcome monitor (finish, deliveries, bytes reaching the peer's application, errno) over policy x credential-kind x where-set x by-file/by-value cells; ASan+UBSan",
-    level_text="One cell = one handshake between XCM endpoints on tls, btls or utls-over-TLS. Policies {tls.auth, tls.check_time, tls.check_crl (valid or expired CRL), tls.verify_peer_name with tls.peer_names or the address host name, trust bundle root A or B, TLS roles reversed via tls.client} are drawn per side and set in the connect map, on the server socket or in an accept map overriding a lax or a strict server socket (credentials and trust anchors included, by file or by value); the presented credentials walk over 12 generated kinds (valid, untrusted root, via trusted/untrusted/revoked/expired intermediate, expired, not yet valid, revoked, wrong name, serverAuth-only, clientAuth-only). For each side whose policy does not admit the peer: xcm_finish never 0, nothing delivered, none of its application bytes at the peer (both sides send speculatively throughout), errno EPROTO. Cells admitted by both sides must establish and carry a message each way (shortfall counted, floored). Five kinds of inconsistent policy must be refused with EINVAL at creation. Inconsistent policies are also split: the demanding half on the server socket, tls.auth=false in the accept map; or names expected from a host name in the address.",
+    level_text="One cell = one handshake between XCM endpoints on tls, btls or utls-over-TLS. Policies {tls.auth, tls.check_time, tls.check_crl (valid or expired CRL), tls.verify_peer_name with tls.peer_names or the address host name, trust bundle root A or B, TLS roles reversed via tls.client} are drawn per side and set in the connect map, on the server socket or in an accept map overriding a lax or a strict server socket (credentials and trust anchors included, by file or by value); the presented credentials walk over 15 generated kinds (valid, untrusted root - also with a 3000-byte key identifier or a 1300-character subject -, via trusted/untrusted/revoked/expired intermediate, expired, not yet valid, revoked, wrong name, wildcard name *.domain, serverAuth-only, clientAuth-only). For each side whose policy does not admit the peer: xcm_finish never 0, nothing delivered, none of its application bytes at the peer (both sides send speculatively throughout), errno EPROTO. Cells admitted by both sides must establish and carry a message each way (shortfall counted, floored). Five kinds of inconsistent policy must be refused with EINVAL at creation. Inconsistent policies are also split: the demanding half on the server socket, tls.auth=false in the accept map; or names expected from a host name in the address; name verification without names is also tried with an empty tls.peer_names value.",
     level_note="OpenSSL's path validation is trusted; the evaluator models what XCM asks of it. Cells whose verdict would depend on anything else (signature algorithms, path length) are not generated.",
     harness=STATES + ["c09.c"],
     stages=[dict(variant="asan", cases={"quick": 3000, "thorough": 80000}, timeout={"quick": 900, "thorough": 3400})],
-    floors={"quick": {"cells": 2500, "cells_client_must_reject": 500, "cells_server_must_reject": 500, "rejections_verified": 1000, "admitted_connections_verified": 500, "invalid_combinations_tried": 80, "distinct_nontrivial": 800},
+    floors={"quick": {"cells": 2500, "cells_client_must_reject": 500, "cells_server_must_reject": 500, "rejections_verified": 1000, "admitted_connections_verified": 500, "invalid_combinations_tried": 80, "invalid_combinations_with_empty_name_list": 2, "distinct_nontrivial": 800},
             "thorough": {"cells": 60000, "rejections_verified": 30000, "admitted_connections_verified": 15000, "distinct_nontrivial": 5000}},
     rule="one evaluation = one cell (one handshake, or one inconsistent creation); non-trivial = at least one side must reject; distinct = distinct (transport, both policies, both credential kinds, where the server policy was set, role reversal, expected verdicts) cells",
     assumptions=["the peer's chain is what its tls.cert item carries plus the verifier's bundle; with check_crl a CRL of every issuer is supplied",
